@@ -311,6 +311,12 @@ impl Engine for C06 {
             }
         }
         for (bi, recs) in buckets.iter().enumerate() {
+            // every record CRLF-terminated in turn (and the last one at the end of the file)
+            for n in 0..recs.len() {
+                let after = if n % 2 == 0 { vec![simple_rec(120 + bi, false, if n % 2 == 0 { Via::LibAsync } else { Via::LibSync })] } else { vec![] };
+                out.push(Case { keys: keys.clone(), recs: recs.clone(), damages: vec![BDamage::CrBeforeLf(n)], after });
+                out.push(Case { keys: keys.clone(), recs: recs.clone(), damages: vec![BDamage::AppendRaw(b"\r\n".to_vec()), BDamage::CrBeforeLf(n)], after: vec![] });
+            }
             // the file length is known by construction: encode with the reference writer
             let len: usize = recs.iter().map(|r| reffmt::encode_record(&to_rec(&keys, r), EmitStyle { ascii: false, reversed: false }).len()).sum();
             for j in 0..len {
@@ -423,5 +429,6 @@ fn bdamage_name(d: &BDamage) -> &'static str {
         BDamage::AppendRaw(_) => "torn_tail",
         BDamage::AppendLineFrom(_) => "duplicated_fragment_as_line",
         BDamage::BecomeDir => "become_dir",
+        BDamage::CrBeforeLf(_) => "crlf_terminated_record",
     }
 }
